@@ -21,7 +21,7 @@ STUB_COMPONENTS = ['sources', 'searchers', 'borrower readers (layer 1: answer ta
 RULE = ('layer 1: seeded compile() worlds with 1-3 borrowers of both flavours holding random subsets, failures planted in every stage, noDeps/genTexts/ignoreErrors subsets; '
         'layer 2: directories with every extension variant of the module name read through the real borrowers; '
         'distinct = distinct (status multiset, options, faults, component counts, borrower flavours); non-trivial = a borrower was consulted or a fault fired')
-ASSUMPTIONS = ['names whose failure stems from a co-resident module of a multi-module file (known finding D18, see C07) are not judged']
+ASSUMPTIONS = ['multi-module files are taken or refused as a whole (after the D18 repair)']
 
 
 def judge(t):
@@ -30,13 +30,7 @@ def judge(t):
     R = t.R
     opts = scn.get('options', {})
 
-    # known finding D18 (C07): a co-resident module's failure is booked under the lookup name although that module
-    # compiled; borrowing is then attempted for a compiled module.  Those names are not judged here.
-    cores = set()
-    for c in t.by('symtab.genCode'):
-        if not c.ok and c.ctx is not None and c.mib != c.ctx:
-            if any(d.ok and d.mib == c.ctx and d.ctx == c.ctx for d in t.by('symtab.genCode')):
-                cores.add(c.ctx)
+    cores = set()      # (D18 is repaired: no name is exempt any more)
 
     def V(clause, msg, **facts):
         if facts.get('module') in cores:
@@ -64,9 +58,9 @@ def judge(t):
             if c.ok:
                 attempts[-1]['mods'].append(c.mib)
     for a in attempts:
-        fetch_ok.update(a['mods'])      # registered even if a later module of the same file failed
         if a['ok']:
             fetch_ok.add(a['name'])
+            fetch_ok.update(a['mods'])
     # a module of a fetched file that never got through the symbol-table stage is a failure under its own name
     # (a module of a fetched file that fails the symbol-table stage is booked by pysmi under the name the file was
     # fetched as; eligibility for borrowing is judged for that name)
@@ -77,7 +71,7 @@ def judge(t):
     failed_before = (fetch_tried - fetch_ok) | gen_fail
     requested = set(scn['requested'])
     # modules that came in a file fetched under a requested name count as explicitly requested
-    requested |= set(c.mib for c in t.by('symtab.genCode') if c.ok and c.ctx in requested)
+    requested |= set(m for a_ in cs.attempts_of(t) if a_['ok'] and a_['name'] in requested for (m, _x, _y) in a_['mods'])
     noDeps = bool(opts.get('noDeps'))
     bcalls = t.by('borrower.getData')
     rcalls = t.by('breader.getData')
